@@ -452,6 +452,9 @@ class ListBox(Widget, WidgetContainerMixin):
             list of (*widget*, *position*, *rows*) tuples below focus in order from top to bottom)
         """
         (maxcol, maxrow) = size
+        if maxrow <= 0:
+            # no rows: nothing is visible; a pending focus change is completed when there is room
+            return None, None, None
 
         # 0. set the focus if a change is pending
         if self.set_focus_pending or self.set_focus_valign_pending:
